@@ -55,6 +55,7 @@ PAYLOADS = [((), {}), ((object(),), {}), ((None, []), {'k': object()}), ((0, '')
 
 
 class DispatcherAdapter:
+    multi = True      # track every model state that explains the observations so far (replay.walk)
     def __init__(self, desper, rank_perms=None):
         self.desper = desper
         self.rank_perms = rank_perms
